@@ -301,6 +301,51 @@ func firstLine(out []byte, prefix string) string {
 	return ""
 }
 
+// selftest channels: the emulation of channels, select and timers (zsim/chan.go) is
+// checked against the semantics of the Go specification by the chanself world: ordering
+// and completion of unbuffered exchanges, capacity and FIFO of buffered channels, exactly
+// one case of a select taken (and every ready case taken in some run), close waking every
+// receiver, panics on closed channels, nil channels, timers and context timers on the
+// simulated clock, and a rendezvous that never happens ending as a stuck state.
+func selftestChannels() int {
+	scratch, worker := prepare("C10", "", false)
+	_ = scratch
+	defer cleanup()
+	cmd := exec.Command(worker, "-world", "chanself", "-prop", "selftest", "-seed", strconv.FormatUint(seedFromEnv(), 10), "-from", "0", "-to", "60000", "-wall", "120", "-noshrink")
+	cmd.Env = env()
+	out, err := cmd.Output()
+	var o struct {
+		Stats struct {
+			Runs   int            `json:"runs"`
+			Probes map[string]int `json:"probes"`
+		} `json:"stats"`
+		Violations []struct {
+			Clause string `json:"clause"`
+			Msg    string `json:"msg"`
+			Run    int    `json:"run"`
+		} `json:"violations"`
+	}
+	if err != nil || json.Unmarshal(out, &o) != nil {
+		fmt.Printf("selftest channels: worker failed: %v\n%s\n", err, tail(out, 2000))
+		return 2
+	}
+	for _, v := range o.Violations {
+		fmt.Printf("selftest channels: run %d: %s: %s\n", v.Run, v.Clause, v.Msg)
+	}
+	bad := len(o.Violations) > 0
+	for _, p := range []string{"select_took_0", "select_took_1", "rendezvous", "select_several_ready"} {
+		if o.Stats.Probes[p] == 0 {
+			fmt.Printf("selftest channels: never reached: %s\n", p)
+			bad = true
+		}
+	}
+	if bad {
+		return 2
+	}
+	fmt.Printf("selftest channels: OK (%d runs; select took case 0 %d times and case 1 %d times when both were ready; %d rendezvous)\n", o.Stats.Runs, o.Stats.Probes["select_took_0"], o.Stats.Probes["select_took_1"], o.Stats.Probes["rendezvous"])
+	return 0
+}
+
 // selftest passthrough: the source rewriter must not change behaviour outside a
 // simulation. A copy of /repo *with* its test files is instrumented and the
 // repository's own test suite is run against it (shims fall through to the
